@@ -736,3 +736,8 @@ impl<'a> Peripheral<'a> {
         }
     }
 }
+
+#[cfg(kani)]
+mod verif {
+    include!(concat!(env!("PROFIRUST_VERIF_HARNESS"), "/dp_peripheral.rs"));
+}
